@@ -522,6 +522,16 @@ def gen_series_case(rng, tier, fam=None):
         for a in v["add"]:
             if rng.chance(0.5):
                 a[1] = rng.pick(kinds)
+    # magnitude: whole-number columns keep their decision when every value is multiplied by k (Props/C18.v 2c);
+    # powers of two for floats (exact), small factors for ints (no overflow of a narrow backing)
+    if fam == "wholefloat" or (fam == "mixed" and {c[0] for c in cells} == {"f", "m"}):
+        for v in vs:
+            if rng.chance(0.5):
+                v["scale"] = rng.pick([2, -1, -2, 4])
+    elif fam == "int":
+        for v in vs:
+            if rng.chance(0.4):
+                v["scale"] = 3 if backing in ("int8", "uint8", "int32") else rng.pick([3, -1, 7, 1000003])
     rp = {"backing": backing, "name": rng.pick([None, None, "col", 7]), "call": rng.pick(["pos", "kw"]),
           "alias": rng.pick(["module", "utils"])}
     return {"kind": "series", "family": fam, "sdtype": sd, "cells": cells, "variants": vs, "rep": rp}
@@ -721,6 +731,8 @@ def gen_boundary_cases(rng):
         add(tag + "_nan_3_3", "wholefloat", [v1] * 3 + [v2] * 3 + [["m", "nan"]], missing=False)
         add(tag + "_nan_5_5", "wholefloat", [["m", "nan"]] + [v1] * 5 + [v2] * 5, missing=False)
         add(tag + "_5_5", "wholefloat", [v1] * 5 + [v2] * 5, missing=False)
+    e19 = lambda k: ["f", k * 10 ** 19, 1]
+    add("wholefloat_cast_witness", "wholefloat", [e19(1), e19(2), e19(1), e19(2), ["m", "nan"], e19(1), e19(2)], missing=False)
     add("float_inf_nan", "floatinf", [Fl(2)] * 5 + [["finf", 1]] * 5 + [["m", "nan"]], missing=False)
     add("float_neg_inf", "floatinf", [Fl(2)] * 5 + [["finf", -1]], missing=False)
     add("float_signed_zero_merge_5", "wholefloat", [["f", 0, 1, "neg"]] * 3 + [Fl(0)] * 2 + [["m", "nan"]], missing=False)
@@ -849,10 +861,13 @@ def make_index(labels):
     return labels["v"]
 
 
-def variant_cells(cells, v):
+def variant_cells(cells, v, scaled=True):
     out = [cells[i] for i in v["perm"]]
     for pos, kind in v["add"]:
         out.insert(min(pos, len(out)), ["m", kind])
+    k = v.get("scale")
+    if k and scaled:                       # every numeric value multiplied by k (whole-number columns only)
+        out = [[c[0], c[1] * k] + list(c[2:]) if c[0] in ("f", "i") else c for c in out]
     return out
 
 
@@ -1037,6 +1052,8 @@ def _variant_kinds(v, n):
         k.append("labels-" + v["labels"]["t"])
     if v["add"]:
         k.append("missing-added")
+    if v.get("scale"):
+        k.append("scaled")
     return k
 
 
@@ -1304,7 +1321,7 @@ def sanity(cases, obss):
     for lab in ("default", "offset", "perm", "string", "dup", "multi", "datetime", "float"):
         if d["labelings"].get(lab, 0) == 0:
             probs.append(f"index labeling {lab} never drawn")
-    for k in ("permuted", "labels", "missing"):
+    for k in ("permuted", "labels", "missing", "scaled"):
         if d["variant_kinds"].get(k, 0) == 0:
             probs.append(f"variant kind {k} never drawn")
     for m in (4, 5):
@@ -1412,9 +1429,9 @@ def coq_series_term(cells, o, preds=True):
     cl = C.clist(cells, coq_cell)
     t = f"outcome_eqb (infer_series_stype {cl}) {coq_outcome(o)}"
     kinds = {c[0] for c in cells if c[0] != "m"}
-    if kinds == {"s"}:
-        # the specification-level string table (rows containing a token, Props/C18.v 6b) against the code
-        t += f" && outcome_eqb (Inferred (Some (string_table_spec (dropna {cl})))) {coq_outcome(o)}"
+    if kinds and kinds <= {"s", "d"}:
+        # the string part of the table with its priorities, at specification level (Props/C18.v 6b, 6c)
+        t += f" && outcome_eqb (Inferred (Some (string_column_decision (dropna {cl})))) {coq_outcome(o)}"
     if "preds" in o and preds:
         t += f" && bools_eqb (dtype_preds {cl}) {C.clist(o['preds'], C.cbool)}"
     return t
@@ -1432,6 +1449,13 @@ def coq_term(case, obs):
         terms = [coq_series_term(case["cells"], obs["base"], dp)]
         for v, o in zip(case["variants"], obs["variants"]):
             terms.append(coq_series_term(variant_cells(case["cells"], v), o, dp))
+            if v.get("scale"):     # the model's own scale_cell on the unscaled variant against the scaled run
+                un = C.clist(variant_cells(case["cells"], v, scaled=False), coq_cell)
+                terms.append(f"outcome_eqb (infer_series_stype (map (scale_cell {C.cz(v['scale'])}) {un})) {coq_outcome(o)}")
+        if case.get("boundary") == "wholefloat_cast_witness":
+            # the refuted int64-cast variant (Props/C18.v int64_cast_variant_refuted) must DISAGREE with the code
+            cl = C.clist(case["cells"], coq_cell)
+            terms.append(f"negb (outcome_eqb (infer_after_int64_cast {cl}) {coq_outcome(obs['base'])})")
         return "(" + " && ".join(terms) + ")"
     if any(not _in_model_domain(c["cells"]) for c in case["columns"]):
         return None
